@@ -30,11 +30,29 @@ def rule_reject_sound(ctx):
     facts = ctx.facts()
     pm = models.parser_model(facts)
     rl = faults.roles(facts, pm)
-    matched, missing, extra = faults.match_rows(facts, pm, rl, ROLES)
+    weak = []
+    matched, missing, extra = faults.match_rows(facts, pm, rl, ROLES, weak_out=weak)
     for (role, ref, desc, site, key) in matched:
         ctx.ob("REJECT-SOUND", "%s: %s" % (role, ref), True, fn=key, site=site, detail="extracted: " + desc)
     for (role, ref, _, key) in missing:
-        ctx.ob("REJECT-SOUND", "%s: %s" % (role, ref), False, fn=key, site=fn_site(facts, key), detail="no matching row in the rejection list extracted from this function (the guard is missing, evaluates another component, or returns another error)")
+        w = [x for x in weak if x[0] == role and x[1] == ref]
+        if w:
+            ctx.ob("REJECT-SOUND", "%s: %s" % (role, ref), False, fn=key, site=w[0][3], detail="the refusal exists only on a narrower path: " + w[0][2])
+        else:
+            ctx.ob("REJECT-SOUND", "%s: %s" % (role, ref), False, fn=key, site=fn_site(facts, key), detail="no matching row in the rejection list extracted from this function (the guard is missing, evaluates another component, or returns another error)")
+    # every way out of the parser that is not a refusal has passed every unconditional test
+    accept = [r for r in models.rejections(facts, pm["key"]) if r["kind"] in ("tail", "ok")]
+    must = [r["trigger"] for r in faults.reference_rows(rl) if r["role"] == "parser" and r["kind"] == "err" and "trigger" in r]
+    for r in accept:
+        have = set(faults.loosen(set(r["catoms"])))
+        for a in list(have):  # a string in which a separator was found is not empty
+            if a[0] == "found" and a[-1] is True:
+                have.add(("empty", a[3], False))
+            if a[0] == "contains" and a[-1] is True:
+                have.add(("empty", a[2], False))
+        lacking = [t for t in must if faults.loosen(faults.neg(t)) not in have]
+        ctx.ob("REJECT-SOUND", "parser: the accepting exit is reached only past every unconditional test (scheme, type present, '/' present, valid type)", not lacking, fn=pm["key"], site=r["site"], detail="not on the path condition: %s" % [show_canon(faults.neg(t)) for t in lacking])
+    ctx.ob("REJECT-SOUND", "parser: exactly one accepting exit (the call of build)", len(accept) == 1 and accept[0]["kind"] == "tail", fn=pm["key"], detail="%d" % len(accept))
     # the strict decoder
     dec = rl.get("decoder")
     if not dec:
